@@ -435,6 +435,45 @@ Proof.
     rewrite (cl_true (chk_origin _ _)) by (unfold chk_origin; lia). cbn [app]. rewrite T1. reflexivity.
 Qed.
 
+Lemma aset_aset_same : forall A k (v w : A) l, aset k v (aset k w l) = aset k v l.
+Proof.
+  induction l as [|[k0 v0] l IH]; cbn [aset].
+  - rewrite Z.eqb_refl. reflexivity.
+  - destruct (k0 =? k) eqn:E; cbn [aset]; rewrite ?Z.eqb_refl, ?E; [reflexivity|rewrite IH; reflexivity].
+Qed.
+
+(* two MsgMintIssueTx in one transaction: the cap clauses see the SUM *)
+Lemma sound_mint_issue2 : forall k s actor d a1 a2, rel k s -> inv s -> step_sound k s (OMintIssue2 actor d a1 a2).
+Proof.
+  intros k s actor d a1 a2 R I. pose proof R as (R1 & R2 & R3 & R4 & R5 & R6 & R7). destruct (R7 d) as (V1 & V2 & V3).
+  unfold step_sound, model_obs, step_total. cbn [step op_denom].
+  destruct (do s1 <- mint_issue cf s actor d a1; mint_issue cf s1 actor d a2) as [s'| |] eqn:E; cbn [res_of fst snd check_step Z.eqb negb].
+  - assert (Hc : cap_ok (s_reg s')) by (eapply (step_ok_cap s (OMintIssue2 actor d a1 a2)); [exact I|exact E]).
+    destruct (mint_issue cf s actor d a1) as [s1| |] eqn:E1; cbn [bind] in E; try discriminate.
+    destruct (mint_issue_shape _ _ _ _ _ E1) as (t & Et & F1 & P1 & B1 & Rg1 & Hn).
+    destruct (mint_issue_shape _ _ _ _ _ E) as (t1 & Et1 & F2 & P2 & B2 & Rg2 & _).
+    rewrite Rg1, aget_aset_same in Et1. inversion Et1; subst t1; clear Et1.
+    assert (Rg : s_reg s' = aset d (with_supply t (t_supply t + a1 + a2)) (s_reg s)).
+    { rewrite Rg2, Rg1, aset_aset_same. cbn [t_supply with_supply]. reflexivity. }
+    assert (F : same_frame s s') by (eapply same_frame_trans; eassumption).
+    assert (Ed : aget d (s_reg s') = Some (with_supply t (t_supply t + a1 + a2))) by (rewrite Rg; apply aget_aset_same).
+    assert (Es : supply_of s' d = supply_of s d + a1 + a2) by (unfold supply_of; rewrite B2, B1, !zget_zadd_same; lia).
+    assert (En : nat_supply s' = nat_supply s) by (unfold nat_supply, supply_of; rewrite B2, B1, !zget_zadd_other by lia; reflexivity).
+    assert (T : touch_only d s s').
+    { eapply touch_only_aset; [exact Rg|]. intros d' Hd. unfold supply_of. rewrite B2, B1, !zget_zadd_other by exact Hd. reflexivity. }
+    destruct (token_tail k s s' d (reg_supply_of (v_tok (view_of k d))) R Hc F T) as (T1 & T2).
+    { intros x t0 E1' E2' Hp. rewrite Ed in E1'. rewrite Et in E2'. inversion E1'; inversion E2'; subst. cbn. lia. }
+    { rewrite Ed. discriminate. }
+    split; [|exact T2].
+    rewrite (cl_true (chk_origin _ _)) by (unfold chk_origin; lia). cbn [app].
+    rewrite cl_true; [exact T1|].
+    rewrite V1, V2, Et, Ed, Es. cbn [reg_supply_of t_supply with_supply]. lia.
+  - destruct (token_reject k s d R) as (T1 & T2). split; [|exact T2].
+    rewrite (cl_true (chk_origin _ _)) by (unfold chk_origin; lia). cbn [app]. rewrite T1. reflexivity.
+  - destruct (token_reject k s d R) as (T1 & T2). split; [|exact T2].
+    rewrite (cl_true (chk_origin _ _)) by (unfold chk_origin; lia). cbn [app]. rewrite T1. reflexivity.
+Qed.
+
 Lemma sound_burn : forall k s actor d amt, rel k s -> inv s -> step_sound k s (OBurn actor d amt).
 Proof.
   intros k s actor d amt R I. pose proof R as (R1 & R2 & R3 & R4 & R5 & R6 & R7). destruct (R7 d) as (V1 & V2 & V3).
@@ -622,6 +661,7 @@ Proof.
   assert (PO : Forall (ubi_pay_ok cf) (s_ubis s)).
   { eapply Forall_impl; [|exact Idom]. intros u (A & L & P). unfold ubi_pay_ok. repeat split; try assumption; left; assumption. }
   destruct (block_ubi_payout_lemma cf s dt s1 s2 s3 E Ipools PO) as (C3 & _).
+  destruct (block_ubi_gate_lemma cf s dt s1 s2 s3 Imax E) as (G1 & G2).
   destruct (block_shape _ _ _ _ _ E) as (T & Sp & Sn & Su & Sps & Sys).
   destruct (block_parts_view _ _ _ _ _ _ E) as (VP & _ & _ & N3).
   destruct (VP native) as (Off & Tk).
@@ -634,6 +674,7 @@ Proof.
   split.
   - rewrite R1, R2, R3, R4, R5, R6.
     rewrite (cl_true _ _ C1). cbn [app]. rewrite (cl_true _ _ C2). cbn [app].
+    rewrite (cl_true _ _ G1). cbn [app]. rewrite cl_true by lia. cbn [app].
     rewrite cl_true by lia. cbn [app].
     rewrite cl_true. 2:{ apply andb_true_intro. split; apply Bool.orb_true_iff.
                          - destruct Sps as [->| ->]; [left|right]; apply snap_eqb_refl.
@@ -663,6 +704,7 @@ Proof.
   - apply sound_upsert_msg; assumption.
   - apply sound_prop_upsert; assumption.
   - apply sound_mint_issue; assumption.
+  - apply sound_mint_issue2; assumption.
   - apply sound_burn; assumption.
   - apply sound_fee; assumption.
 Qed.
